@@ -11,7 +11,7 @@ TRUSTED = [
     "extraction: Require Extraction + ExtrOcamlBasic only; Z, positive, nat, Q stay the extracted inductive types; OCaml 4.13.1 ocamlopt",
     "hand-written, unverified glue: harness/run_pset.cc + vh_common.hh (case interpreter, printers, private access to `reduced', `sequence', "
     "`prep', `references'), ocaml/judge_pset.ml + zutil_pset.ml (parsing, dispatch, the choice of which verified function judges which step, "
-    "the transcription of Pointset_Powerset::is_universe / strictly_contains / concatenate flag handling), tools/gen_pset.py, tools/psetrun.py; g++, GMP",
+    "the transcription of Pointset_Powerset::is_universe / concatenate flag handling), tools/gen_pset.py, tools/psetrun.py; g++, GMP",
     "modelled rather than verified: the C++ of PPL is not translated mechanically; Powerset/PS.v and Powerset/Cow.v are hand transcriptions "
     "(loop for loop) of Powerset_templates.hh / Powerset_inlines.hh / Determinate_inlines.hh, tied to the code by the per-step comparison",
 ]
